@@ -135,7 +135,13 @@ def gen_cases(rng, tier):
         cfg["turns"].append(G.clean_turn(rng, cfg, len(cfg["turns"]) + 1))
         if rng.random() < 0.4:
             G.collapse_texts(rng, cfg, p_bot=0.5, p_user=0.4)  # the texts after a fault repeat earlier ones
+        if rng.random() < 0.2:
+            G.inject_propagating(rng, cfg)  # ... and one turn ends by a failure that leaves `generate` by design
         cases.append(cfg)
+    # failures that PROPAGATE (LLMCallException from the LLM call of a rail / of the generation, cancellation of the request at a
+    # chosen step): the call returns nothing, the caller goes on from the last state it was given on the same LLMRails instance -
+    # "the failure does not poison the conversation: the next turn is processed with all rails active"
+    cases.extend(G.propagating_cases(rng, tier, "both"))
     # a fault after the rails' variables were set, then texts that repeat the visible / the hidden / an earlier rejected one
     # (user text and LLM text together), see pipeline_cases.REPEAT_PATTERNS
     cases.extend(G.repeat_cases(rng, tier, "both", patterns=[G.REPEAT_PATTERNS[i] for i in (0, 1, 5)] if tier == "quick" else None))
@@ -149,14 +155,17 @@ def expected_in(case, tc):
     n = 0
     for rid in G.eff_in(case, tc):
         n += 1
-        if G.verdict_of(tc, "in", rid) in ("r", "f"):
+        if G.verdict_of(tc, "in", rid) in ("r", "f", "x"):
             break
     return G.eff_in(case, tc)[:n]
 
 
 def turn_oracle(case, tc, to, after_fault):
-    # "`generate` still returns normally"
+    # "`generate` still returns normally" - but "LLM provider failures are excluded (they surface as LLMCallException by design)", and
+    # so does the cancellation of the request's task: such a turn returns nothing; it must not poison the next one (checked below)
     if to["raised"]:
+        if G.P.propagating(tc) and to["raised"].split(":")[0] in ("LLMCallException", "CancelledError"):
+            return None
         return f"[raised] generate raised {to['raised']}"
     steps = to["steps"]
     rep = to["reply"]
@@ -168,7 +177,8 @@ def turn_oracle(case, tc, to, after_fault):
     last_gen = max(gen_idx) if gen_idx else -1
     out_ids = [s[2] for i, s in enumerate(steps) if s[0] == "rail" and s[1] == "out" and i > last_gen]
     carries_llm_text = bot in text
-    rail_fault = [s for s in steps if s[0] == "rail" and G.verdict_of(tc, s[1], s[2]) == "f"]
+    # "f": the rail's action raises; "x": the rail's own LLM call fails (if the call returns at all, the content is not approved either)
+    rail_fault = [s for s in steps if s[0] == "rail" and G.verdict_of(tc, s[1], s[2]) in ("f", "x")]
     if rail_fault:
         # "the content that action was guarding is treated as not approved, so the reply is a refusal or the fixed internal-error message"
         ok = (rep["role"] == "assistant" and text in (G.REFUSAL, G.INTERNAL_ERROR)) or (case["exc"] and rep["exc"] in ("InputRailException", "OutputRailException") and (case["ver"] == "1.0" or text == ""))
